@@ -16,6 +16,15 @@ def prepare(rp, ce, params):
         return out
     S, M, PMv = seq("s"), seq("m"), seq("p")
     tr = " ".join(ce.get("trace") or [])
+    if rp.get("lim"):
+        from replay_common import trace_val
+        ps = [4091, 4092, 4093][trace_val(ce, "pad_s")]; pm = [10236, 10237, 10238][trace_val(ce, "pad_m")]
+        S = [0] * ps + S
+        if M or key.startswith("Memory"): M = [0] * pm + M
+        if PMv or "has_parent=1" in tr: PMv = [0] * pm + PMv
+    if key == "Stack::Push" and "len=" in tr:
+        from replay_common import trace_val
+        S = [0] * [4094, 4095, 4096][trace_val(ce, "len")]
     has_parent = "has_parent=1" in tr
     fields = dict(kind="vm_op", op=key, stack=" ".join(map(str, S)), memory=" ".join(map(str, M)),
                   pc=str(min(model.get("pc", 0), 3)))
@@ -26,8 +35,14 @@ def prepare(rp, ce, params):
     if len(S) < spec["need"]:
         exp = None
     else:
-        valid = spec["pre"](Si, Mi, PMi)
-        if valid is True:
+        valid = spec["pre"](Si, Mi, PMi) if "pre" in spec else True
+        if rp.get("lim") and valid is True and spec.get("fits"):
+            valid = spec["fits"](Si, Mi, PMi)
+        if key == "Stack::Push":
+            valid = len(S) < 4096
+            exp = (S + [sw(model.get("w", 0))], M) if valid else None
+            fields["imm"] = str(sw(model.get("w", 0)))
+        elif valid is True:
             conc = [x.sval() for x in (spec.get("structural") or (lambda S: []))(Si)]
             eS, eM = spec["post"](Si, Mi, PMi, conc)
             exp = ([x.sval() for x in eS], [x.sval() for x in eM])
